@@ -882,7 +882,7 @@ func rogueSuite(seed uint64, tier, outDir string) (*core.Result, error) {
 		kind string
 	}
 	var jobs []job
-	forced := []string{"single-down", "all-banned", "all-failed", "six-servers", "all-kinds", "mixed"}
+	forced := []string{"single-down", "all-banned", "all-failed", "six-servers", "six-late-failures", "all-kinds", "mixed"}
 	for _, c := range corpus {
 		if c.Kind == "round-single-down" {
 			forced = append([]string{"single-down"}, forced...)
@@ -956,7 +956,7 @@ func rogueSuite(seed uint64, tier, outDir string) (*core.Result, error) {
 	}
 
 	res.Required = append(res.Required, "sweep.edge", "sweep.short-read", "sweep.stale", "rogue.edge-random", "rogue.edge-zero", "rogue.random-length",
-		"round.single-down", "round.all-banned", "round.all-failed", "round.six-servers", "attempt.refuse", "attempt.reset", "attempt.short",
+		"round.single-down", "round.all-banned", "round.all-failed", "round.six-servers", "round.six-late-failures", "attempt.refuse", "attempt.reset", "attempt.short",
 		"attempt.badsig", "attempt.stale", "attempt.future", "attempt.wrongdev", "attempt.badsrvsig", "attempt.badlen", "attempt.rogue-short",
 		"attempt.garbage", "attempt.tiny", "attempt.badmig", "attempt.refusal-byte", "attempt.success", "attempt.delayed", "attempt.early", "hist.load", "liveness.report-after-failed-sync", "liveness.sync-retried")
 	res.Rule = "A: every length prefix edge (0..65535) with unsigned bodies, short reads; B: contents of 64..1100 bytes correctly signed by the contacted server (random / zero), genuine replies mutated in the list region and re-signed; C: client histories over 1..6 scripted servers with per-round behaviours and restarts (non-trivial = at least one accepted reply, distinct by full transcript); D: real client with the reporting loop and a dead / resetting / never-answering server; E: real client, two overlapping sync rounds (slow server banned by the fast one meanwhile)"
@@ -970,7 +970,7 @@ func runRogueHistory(h *histRun, kind string, thorough bool) error {
 	switch kind {
 	case "single-down":
 		n = 1
-	case "six-servers":
+	case "six-servers", "six-late-failures":
 		n = 6
 	case "all-kinds":
 		n = 1
@@ -988,6 +988,8 @@ func runRogueHistory(h *histRun, kind string, thorough bool) error {
 			banned = false
 		case "six-servers":
 			listen, banned = i == 0 || rng.Chance(50), false
+		case "six-late-failures":
+			listen, banned = true, false
 		case "all-kinds":
 			listen, banned = true, false
 		}
@@ -1027,6 +1029,11 @@ func runRogueHistory(h *histRun, kind string, thorough bool) error {
 				if k != h.order[0] {
 					bk = "reset"
 				}
+			}
+			if kind == "six-late-failures" {
+				// every server answers, and every reply is refused by one of the LAST checks (entries not signed by
+				// the GCA, orders not signed by the current GCA): the round makes all its attempts, none succeeds
+				bk = []string{"badsrvsig", "badmig", "badsrvsig-known", "badinner-known", "badinner"}[rng.Intn(5)]
 			}
 			if kind == "six-servers" && r == 0 {
 				bk = "reset"
